@@ -62,6 +62,12 @@ AllOfs == { [k |-> "allOf", nullable |-> FALSE, of |-> << a, b >>] :
               a \in Forms(MemberA, "PoolA"), b \in Forms(MemberB, "PoolB") \cup Forms(MemberC, "PoolC") }
           \cup { [k |-> "allOf", nullable |-> FALSE, of |-> << a, b >>] : a \in Forms(MemberC, "PoolC"), b \in Forms(MemberB, "PoolB") }
           \cup { [k |-> "allOf", nullable |-> FALSE, of |-> << b, a >>] : a \in Forms(MemberA, "PoolA"), b \in Forms(MemberB, "PoolB") }
+\* `required` written next to the allOf instead of inside a member (the "refine a base schema" idiom): the names it
+\* lists are required of the merged object wherever they are declared.  goag refuses the form today (a clean error, the
+\* pre-flight counts it); should it ever be accepted, the listed properties must be enforced like any required one
+AllOfsAlsoReq == { [k |-> "allOf", nullable |-> FALSE, of |-> << a, b >>, alsoReq |-> rq] :
+                     a \in Forms(MemberA, "PoolA"), b \in Forms(MemberC, "PoolC"),
+                     rq \in { << "tag" >>, << "flag" >>, << "tag", "when" >>, << "name" >> } }
 DM(k, v) == [k |-> k, v |-> v]
 OneOf(vs, d, dm) == [k |-> "oneOf", nullable |-> FALSE, of |-> vs, discProp |-> d, discMap |-> dm]
 Dog == Ref("VarDog")  Cat == Ref("VarCat")  Bird == Ref("VarBird")
@@ -97,7 +103,7 @@ Aliases == { Ref("PoolA"), Ref("PoolNames"), Obj(<< P("via", Ref("PoolAliasA"), 
 OneRef(n, nl) == [k |-> "allOf", nullable |-> nl, of |-> << Ref(n) >>]
 NullableRefIdiom == { Obj(<< P("owner", OneRef("PoolA", nl), r), P("id", Sc("int64", FALSE), TRUE) >>, [addlK |-> ""]) : nl \in BOOLEAN, r \in BOOLEAN }
                     \cup { OneRef("PoolA", nl) : nl \in BOOLEAN } \cup { Arr(OneRef("PoolB", TRUE)) }
-Universe == NullableRefIdiom \cup Aliases \cup NullRefs \cup Scalars \cup { Arr(s) : s \in Scalars } \cup Objects \cup AllOfs \cup OneOfs \cup Nested
+Universe == NullableRefIdiom \cup Aliases \cup NullRefs \cup Scalars \cup { Arr(s) : s \in Scalars } \cup Objects \cup AllOfs \cup AllOfsAlsoReq \cup OneOfs \cup Nested
 
 EmitSchema(s) == st = "pick" /\ Emit /\ PrintT(ToJson([schema |-> s])) /\ UNCHANGED vars
 
